@@ -55,7 +55,7 @@ func (tr Trial) String() string {
 	return fmt.Sprintf("GOMAXPROCS=%d preload=%d %s", tr.Procs, tr.Preload, strings.Join(p, " "))
 }
 
-const Watchdog = 20 * time.Second
+const Watchdog = 60 * time.Second
 
 func serverStacks() string {
 	buf := make([]byte, 4<<20)
